@@ -304,6 +304,17 @@ def translate(ctx):
     return []
 
 
+KNOWN_POST = "C08/circuit/qmpt/small-outcome-probability/post-state-validation-raises"
+
+
+def post_state_rounding(e, S, t):
+    """the circuit refuses a PHYSICAL measurement process on a physical tester state because the post-measurement state
+    `hs_x ρ / p_x` of an unlikely outcome (1e-8 < p_x < 2e-3) fails `is_physical` by rounding (finding D15)"""
+    if "the state is not physically correct" not in str(e):
+        return None
+    return ts.small_branch(S.kind, S.rhos, S.schedules, t)
+
+
 KNOWN_RESHAPE = "C08/calc_prob_dists/mixed-outcome-counts/reshape-raises"
 KNOWN_GROUPING = "C08/calc_prob_dists/mixed-outcome-counts/wrong-grouping"
 
@@ -475,14 +486,18 @@ def correspondence(ctx):
         # (b) candidates: physical (interior / boundary), non-physical random, affine-basis-like unit vectors
         nv = A.shape[1]
         cands = []
+        tobj = {}
         for cls in ("interior", "boundary"):
             t, v = S.true_var(cls)
             cands.append((cls, v, t.obj))
+            tobj[cls] = t
         tl = ts.layout_variant(S.true_var("interior")[0], S.c_sys, flag)
         cands.append(("interior/layout", tl.var(flag), tl.obj))
+        tobj["interior/layout"] = tl
         if kind == "qmpt":
             for t in ts.edge_objects(S.c_sys, kind, m, flag)[:(3 if ctx.quick else 99)]:
                 cands.append((t.label, t.var(flag), t.obj))
+                tobj[t.label] = t
         vr = np.round(S.g.standard_normal(nv) * 256) / 1024
         cands.append(("nonphysical", vr, None))
         e = np.zeros(nv); e[int(S.g.integers(0, nv))] = 1.0
@@ -498,8 +513,20 @@ def correspondence(ctx):
             i = drv.ask("predict", kind, fl, r, m, st, pv, sc, vt)
             pend.append(("predict", (spec, lab), A @ v + b, i))
             i = drv.ask("circuit", kind, fl, r, n, m, 0, st, pv, sc, vt)
+            gen_ = None
             if obj is not None:
-                pend.append(("circuit", (spec, lab), np.concatenate(S.qt.generate_prob_dists_sequence(obj)), i))
+                try:
+                    gen_ = np.concatenate(S.qt.generate_prob_dists_sequence(obj))
+                except ValueError as ex:
+                    psm = post_state_rounding(ex, S, tobj[lab]) if lab in tobj else None
+                    if psm is None:
+                        raise
+                    ctx.violate(KNOWN_POST, f"{spec} cand={lab}: outcome probability {psm:.2e} on a tester state; "
+                                f"compose_qoperations raises `{ex}` for a physical measurement process",
+                                {"kind": "setup", "seed": ctx.seed, "spec": list(spec)})
+                    obj = None        # the circuit cannot be run: the model's circuit is compared with the affine map
+            if obj is not None:
+                pend.append(("circuit", (spec, lab), gen_, i))
                 if kind == "qmpt":
                     i2 = drv.ask("circuit", kind, fl, r, n, m, 1, st, pv, sc, vt)
                     pend.append(("circuit-walk", (spec, lab), np.concatenate(S.circuit(obj)), i2))
@@ -710,6 +737,12 @@ def _check_setup(ctx, spec, full_basis=True):
         try:
             gen = qt.generate_prob_dists_sequence(t.obj)
         except Exception as e:  # noqa
+            psm = post_state_rounding(e, S, t)
+            if psm is not None:
+                ctx.violate(KNOWN_POST, f"{spec} true={cls}: a physical measurement process has an outcome of probability "
+                            f"{psm:.2e} on a tester state; compose_qoperations validates the rounded post state hs_x·ρ/p_x "
+                            f"at atol 1e-13 and raises `{e}`", rep)
+                continue
             ctx.violate(f"C08/generate_prob_dists_sequence/{tag}/raises", f"{type(e).__name__}: {e} on {spec}", rep)
             return
         pred = S.split(A @ v + b)
@@ -931,9 +964,54 @@ def check_option_eps(ctx):
     ctx.count("oracle objects with a non-default eps_truncate_imaginary_part")
 
 
+def check_tilted_projective(ctx):
+    """1 qubit, Lüders instrument of the projective measurement along an axis tilted by θ from z, tester state z0, tester
+    POVMs x, y, z: forward model vs circuit (θ = 0.3: generic; θ = 0.02: one outcome has probability 1e-4)"""
+    c = ts.make_csys("qubit")
+    B = ts.basis_stack(c)
+    sx = np.array([[0, 1], [1, 0]], dtype=complex)
+    sz = np.array([[1, 0], [0, -1]], dtype=complex)
+    states = ts.generate_tester_states(c, ["z0", "x0"])
+    rhos = [s_.to_density_matrix() for s_ in states]
+    povms = ts.generate_tester_povms(c, ["x", "y", "z"])
+    pmats = [[np.array(x) for x in p.matrices()] for p in povms]
+    for theta in (0.3, 0.02):
+        for flag in (True, False):
+            rep = {"kind": "tilted", "seed": ctx.seed}
+            spec = ("qubit", "z0,x0", "x,y,z", "qmpt", flag, 2, f"tilted projective θ={theta}")
+            ps = [(np.eye(2) + s_ * (np.sin(theta) * sx + np.cos(theta) * sz)) / 2 for s_ in (1, -1)]
+            try:
+                qt = ts.build("qmpt", states, povms, flag, 2)
+                obj = ts.MProcess(c, [ts.hs_of_kraus(B, [p]) for p in ps], on_para_eq_constraint=flag)
+                t = ts.TrueObj("qmpt", f"tilted-{theta}", obj, groups=[[p] for p in ps])
+                pred = qt.calc_matA() @ t.var(flag) + qt.calc_vecB()
+                ref = np.concatenate(ts.born_reference("qmpt", rhos, pmats, qt._experiment.schedules, t))
+                ctx.case(("oracle-tilted", theta, flag), sample={"check": "tilted projective instrument", "theta": theta})
+                if not np.abs(pred - ref).max() <= 1e-11:
+                    ctx.violate(f"C08/forward-model/qmpt/flag={flag}/tilted-projective", f"{spec}: matA·var+vecB differs from the "
+                                f"Born rule by {np.abs(pred - ref).max():.2e}", rep)
+                    continue
+                try:
+                    gen = np.concatenate(qt.generate_prob_dists_sequence(obj))
+                except ValueError as e:
+                    if "the state is not physically correct" in str(e) and \
+                            ts.small_branch("qmpt", rhos, qt._experiment.schedules, t) is not None:
+                        ctx.violate(KNOWN_POST, f"{spec}: physical instrument, tester state z0, outcome probability "
+                                    f"{np.sin(theta / 2) ** 2:.1e}: compose_qoperations raises `{e}`", rep)
+                        continue
+                    raise
+                if not np.abs(gen - ref).max() <= 1e-11:
+                    ctx.violate(f"C08/generate_prob_dists_sequence/qmpt/flag={flag}/tilted-projective",
+                                f"{spec}: circuit differs from the Born rule by {np.abs(gen - ref).max():.2e}", rep)
+            except Exception as e:  # noqa
+                raised(ctx, "oracle-tilted", spec, e, rep)
+    ctx.count("oracle tilted projective instruments")
+
+
 def oracle(ctx, volume=1):
     ctx.partial = PARTIAL
     check_near_redundant(ctx)
+    check_tilted_projective(ctx)
     check_product_testers(ctx)
     check_option_eps(ctx)
     if not ctx.quick and volume == 1:
@@ -970,6 +1048,8 @@ def replay(ctx, data):
         check_setup(sub, tuple(r["spec"]))
     elif r["kind"] == "near":
         check_near_redundant(sub)
+    elif r["kind"] == "tilted":
+        check_tilted_projective(sub)
     elif r["kind"] == "product":
         check_product_testers(sub)
     elif r["kind"] == "option-eps":
